@@ -28,10 +28,10 @@ func TestC04conc(t *testing.T) {
 	n := cfg.N(200, 6000)
 	var rounds, handed int64
 	for i := 0; i < n; i++ {
-		if !cfg.Mine(i) {
+		seed := cfg.CaseSeed("C04conc", i)
+		if !cfg.Want(i, seed) {
 			continue
 		}
-		seed := cfg.CaseSeed("C04conc", i)
 		rig.SetWatchdogContext(fmt.Sprintf("C04conc case %d", i))
 		rig.RunCase(t, seed, rig.Opts{}, func(e *rig.Env) {
 			r := e.Rand
